@@ -48,6 +48,7 @@ func clean(x interface{}) interface{} {
 }
 
 func Install(vm *goja.Runtime) {
+	InstallBridge(vm) // C13: Go containers behind wrappers (bridge.go)
 	vm.Set("__tag", func(call goja.FunctionCall) goja.Value {
 		return vm.ToValue(goja.VerifValueTag(call.Argument(0)))
 	})
